@@ -18,6 +18,16 @@ L : this driver is generic: it reads the exported tables, builds every class / w
     and per-cell points = both branches of every gbasis), the functionals, and hands everything to TLC
     (spec/TraceC09.tla).  Completeness: every class of
     skfem.element.__all__ must be in the element table or in the not-driven table.
+Evaluation forms and histories (the clauses are the same, tags xs / hist say how the numbers were obtained):
+    xs = shared   points shared by the cells, X of shape (dim, npts)
+    xs = percell  per-element point arrays (dim, 1 or ncells, npts): the same points replicated, or every cell with its
+                  own stencil nodes;  xs = multi  one call on several cells with different points per cell
+    Agree events  shared vs replicated points must give the same fields (EvaluationFormsAgree)
+    hist = 1 / 2  the stencil nodes are visited one after the other through ONE point buffer overwritten in place / two
+                  alternating buffers, all on the one element instance of the scenario (ElementLinePp / ElementQuadP keep
+                  Legendre tables, ElementGlobal keeps its inverse Vandermonde matrices: for the latter every call is
+                  followed by a call on another mesh)
+    every mesh contains a negatively oriented cell (det DF < 0) and both orientations are among the chosen cells.
 Python decides nothing: it chooses where to sample, calls the library and changes representation (fx).
 """
 import json
@@ -444,7 +454,7 @@ def history_fields(evaluate, plans, X, nbuf, between=None):
             buf = bufs.load(X[:, cols])
             res = evaluate(buf)
             if between is not None:
-                between(buf)
+                between(buf, j)
             if out is None:
                 out = [{nm: (np.full((a.shape[0], X.shape[1]), np.nan), comp) for nm, (a, comp) in r.items()} for r in res]
             for r, o in zip(res, out):
@@ -715,8 +725,9 @@ def exec_cell(rec):
                             for fd in _cell_fields(e, mapping, buf, i, k)]
                 return out
 
-            def between(buf):
-                if mapping2 is not None:
+            def between(buf, j):
+                # (every switch of the mesh makes ElementGlobal rebuild its tables: for large elements only once per axis)
+                if mapping2 is not None and (j == 0 or N <= 32):
                     e.gbasis(mapping2, buf, 0, tind=np.array([0], dtype=np.int64))
             res, err = guarded(lambda: history_fields(evaluate, plans, X, nbuf, between), 300)
             if err:
